@@ -59,3 +59,13 @@ impl TopicCache {
       .collect()
   }
 }
+
+impl DDSCache {
+  /// A DDSCache holding exactly this topic cache, so that the real `garbage_collect` (what the event
+  /// loop's cache-clean timer calls) can be run on a simulator's cache.
+  pub(crate) fn verif_wrap(topic: &str, tc: Arc<Mutex<TopicCache>>) -> Self {
+    let mut topic_caches = HashMap::new();
+    topic_caches.insert(topic.to_string(), tc);
+    DDSCache { topic_caches }
+  }
+}
